@@ -50,6 +50,7 @@ type Step struct {
 	Ans     int    `json:"ans"` // recharge: status the consumer's notification endpoint answers with (0 = 204)
 	Addr    string `json:"addr"` // create: which address members the consumer identification carries
 	Upf     string `json:"upf"`  // update/release: UPF identifier of the usage entries (default "upf"+session label)
+	Nfc     bool   `json:"nfc"`  // update/release: repeat the consumer identification of the create
 	Pad     int      `json:"pad"`
 	Chid    int32    `json:"chid"`
 	Tz      *int     `json:"tz"` // seconds east of UTC to install as time.Local before the step
@@ -123,6 +124,7 @@ func RunSeq(env *Env, prefix, in, out string) error {
 type sessInfo struct {
 	ref string
 	u   string
+	c   string // consumer name given at creation
 }
 
 func (d *SeqDriver) runOne(b *Behaviour) {
@@ -290,7 +292,7 @@ func (d *SeqDriver) runOne(b *Behaviour) {
 				args["times"] = candTimes(t0, t1)
 				pref := chf_context.GetSelf().Url + base + "/"
 				if r.Status == 201 && strings.HasPrefix(r.Location, pref) {
-					sess[st.S] = &sessInfo{ref: r.Location[len(pref):], u: st.U}
+					sess[st.S] = &sessInfo{ref: r.Location[len(pref):], u: st.U, c: st.C}
 					res["ref"] = sess[st.S].ref
 				} else {
 					res["ref"] = ""
@@ -299,7 +301,12 @@ func (d *SeqDriver) runOne(b *Behaviour) {
 				ref := "no-such-ref"
 				if si, ok := sess[st.S]; ok {
 					ref = si.ref
+					if st.Nfc {
+						// a consumer repeats its identification in every request of the session
+						body["nfConsumerIdentification"] = map[string]any{"nFName": si.c, "nodeFunctionality": "SMF"}
+					}
 				}
+				args["nfc"] = st.Nfc
 				args["ref"] = ref
 				bb, _ := json.Marshal(body)
 				r = env.Do("POST", base+"/"+ref+"/"+st.A, bb, nil, 30*time.Second)
